@@ -542,11 +542,58 @@ def _inlinable_body(g, as_value):
         return None
     if as_value:
         if len(rets) != 1 or not body or body[-1] is not rets[0] or rets[0].value is None:
-            return None
+            # `while True: try: return q.get(..) / except Empty: check()` -- every return sits directly in the trailing loop and
+            # carries a value: the caller's `x = helper(..)` becomes that loop with `x = value; break`
+            return _value_loop_body(fn, body, rets)
     else:
         if len(rets) > 1 or (rets and (not body or body[-1] is not rets[0] or rets[0].value is not None)):
             return None
     return body
+
+
+class _ValueLoopBody(list):
+    """Marker: statements of a helper whose value-returns were rewritten to `__RESULT__ = value; break`."""
+
+
+def _value_loop_body(fn, body, rets):
+    import copy
+    if not body or not isinstance(body[-1], (ast.While, ast.For)) or body[-1].orelse or not rets or any(r.value is None for r in rets):
+        return None
+    if any(isinstance(x, ast.Return) for st in body[:-1] for x in ast.walk(st)):
+        return None
+    loop = copy.deepcopy(body[-1])
+    if not (isinstance(loop, ast.While) and isinstance(loop.test, ast.Constant) and loop.test.value is True):
+        return None                      # after a `for` the helper would fall off the end returning None
+
+    def conv(stmts, inner):
+        out = []
+        for st in stmts:
+            if isinstance(st, ast.Return):
+                if inner:
+                    raise ValueError("return in nested loop")
+                asg = ast.Assign(targets=[ast.Name(id="__RESULT__", ctx=ast.Store())], value=st.value)
+                ast.copy_location(asg, st)
+                br = ast.copy_location(ast.Break(), st)
+                ast.fix_missing_locations(asg)
+                out += [asg, br]
+                continue
+            if isinstance(st, (ast.FunctionDef, ast.AsyncFunctionDef, ast.ClassDef)):
+                out.append(st)
+                continue
+            inn = inner or isinstance(st, (ast.For, ast.While))
+            for fld in ("body", "orelse", "finalbody"):
+                if hasattr(st, fld) and isinstance(getattr(st, fld), list):
+                    setattr(st, fld, conv(getattr(st, fld), inn))
+            if isinstance(st, ast.Try):
+                for h in st.handlers:
+                    h.body = conv(h.body, inn)
+            out.append(st)
+        return out
+    try:
+        loop.body = conv(loop.body, False)
+    except ValueError:
+        return None
+    return _ValueLoopBody([copy.deepcopy(x) for x in body[:-1]] + [loop])
 
 
 def inline_helpers(project, func, resolve, depth=2):
@@ -614,6 +661,12 @@ def inline_helpers(project, func, resolve, depth=2):
                             ast.copy_location(asg, s)
                             ast.fix_missing_locations(asg)
                             new.append(asg)
+                        if isinstance(body, _ValueLoopBody):
+                            if not isinstance(target, ast.Name):
+                                out.append(s)
+                                continue
+                            mapping = dict(mapping)
+                            mapping["__RESULT__"] = target.id
                         ren = _Renamer(mapping)
                         hb = [ren.visit(copy.deepcopy(x)) for x in body]
                         if hb and isinstance(hb[-1], ast.Return):
